@@ -11,7 +11,7 @@ ID = "C20"
 THEOREM = ("Ufo2ft.C20.C20_partial / C20_unscripted_everywhere / C20_languages / C20_kern_keys_partial / C20_dflt / "
            "C20_model_failures_shapeA_partial / C20_false_as_stated / C20_quirk_witness / C20_rejects / C20_register / "
            "C20_ds_extra_complete / C20_ds_extra / C20_ds_variable_same / C20_ds_extra_paths / C20_ds_alternate_inherits / "
-           "C20_ds_classify / C20_merge_disjoint / C20_merge_cover / C20_merge_sound / C20_merge_never_asserts / C20_merge_asserts_iff / C20_merge_pairs / C20_var_pairs")
+           "C20_ds_classify / C20_merge_disjoint / C20_merge_cover / C20_merge_sound / C20_merge_never_asserts / C20_merge_asserts_iff / C20_merge_pairs / C20_merge_lands / C20_merge_holds / C20_var_pairs")
 PROOF_FILES = ["C20", "C20Merge"]
 N = {"quick": 1200, "thorough": 12000}
 RULE = ("fonts: 1-4 scripts drawn from latn/grek/cyrl/hebr/arab/deva/beng/khmr/mymr/nko/hira+kana/thai plus common glyphs and "
@@ -892,6 +892,7 @@ LEVEL_TEXT = ("Proved for all inputs (Lean, no size bound) about the model of fe
               "no merged bucket holds a script that no input key has (C20_merge_sound), and the 'Shouldn't happen' AssertionError of the re-assignment loop is "
               "reached exactly when some bucket key is empty, never on non-empty keys of any number (C20_merge_never_asserts / C20_merge_asserts_iff); "
               "whenever it returns, the result has one entry per merged set (the merged keys are distinct: mergeSets_nodup) and the pairs of all result buckets are a permutation of the pairs of all input buckets (C20_merge_pairs); "
+              "every non-empty key lies inside the ONE result bucket that holds all its pairs (C20_merge_lands), so mergeScripts meets the whole predicate the correspondence evaluates on the code's output whenever it returns (C20_merge_holds); "
               "the model (buckets and re-assigned pairs) is compared with the code on synthetic dicts in every run. Variable builds "
               "(KernFeatureWriter.getVariableKerningPairs, the collation loop and the glyph/class filter modelled; proved for all "
               "source lists): the pairs lookups are built from contain every kerning pair of every full (non-layer) source, default "
